@@ -1,5 +1,6 @@
 import NavisModel.Model.Prune
 import NavisModel.Proofs.RerootLemmas
+import NavisModel.Proofs.PruneLemmas
 /-!
 # C12 — pruning keeps exactly the nodes its criterion defines
 
@@ -122,6 +123,198 @@ theorem relocate_to_nearest_kept_ancestor (t : Table) (kept : List Int) (node a 
   obtain ⟨pre, post, hsplit, hpre⟩ := List.find?_eq_some_iff_append.mp h |>.2
   exact ⟨pre, post, hsplit, fun b hb => by simpa using hpre b hb⟩
 
+/-! ### Recursive `prune_twigs`: fixpoint, only twigs removed, well-formedness
+
+`pruneTwigs t len size mask k` is the first round plus at most `k` further rounds (`recursive=k`).
+No `WF t` is needed for the fixpoint and "only twigs" statements. -/
+
+/-- **Fixpoint / fuel sufficiency**: with `|t| ≤ k` further rounds, nothing more can be pruned.
+(Every productive round deletes at least one row, so there are at most `|t|` of them.) -/
+theorem pruneTwigs_fixpoint (t : Table) (len : Int → Int → Nat) (size : Nat) (mask : Option (List Int)) (k : Nat)
+    (hk : t.length ≤ k) : twigDelete (pruneTwigs t len size mask k) len size mask = [] :=
+  pruneTwigs_fixpoint_succ len size mask k t (by omega)
+
+/-- Sharp form: the first round counts too, so `|t| ≤ k + 1` is enough. -/
+theorem pruneTwigs_fixpoint_sharp (t : Table) (len : Int → Int → Nat) (size : Nat) (mask : Option (List Int)) (k : Nat)
+    (hk : t.length ≤ k + 1) : twigDelete (pruneTwigs t len size mask k) len size mask = [] :=
+  pruneTwigs_fixpoint_succ len size mask k t hk
+
+/-- … spelled out: in the result there is **no** terminal branch of length `≤ size` whose leaf is in
+the mask. -/
+theorem pruneTwigs_no_twig_remains (t : Table) (len : Int → Int → Nat) (size : Nat) (mask : Option (List Int)) (k : Nat)
+    (hk : t.length ≤ k) (s : List Int) (hs : s ∈ terminalSegs (pruneTwigs t len size mask k))
+    (hl : pathLen len s ≤ size)
+    (hm : match (generalizing := false) mask, s.head? with
+         | some m, some h => m.contains h = true
+         | some _, none => False
+         | none, _ => True) : False := by
+  obtain ⟨_, h, l, hh, hl', c0, c2⟩ := terminalSegs_spec _ s hs
+  cases s with
+  | nil => simp at hh
+  | cons x rest =>
+    cases rest with
+    | nil =>
+      simp only [List.head?_cons, List.getLast?_singleton, Option.some.injEq] at hh hl'
+      subst hh; subst hl'; omega
+    | cons b r =>
+      have hx : x ∈ twigDelete (pruneTwigs t len size mask k) len size mask :=
+        (twigDelete_spec _ _ _ _ _).mpr ⟨_, hs, hl, hm, by simp⟩
+      rw [pruneTwigs_fixpoint t len size mask k hk] at hx
+      simp at hx
+
+/-- The run of `pruneTwigs` is a sequence of productive rounds (`TwigRounds`): each step replaces the
+current table `u` by `subset u (∉ twigDelete u)` with `twigDelete u ≠ []`. -/
+theorem pruneTwigs_is_rounds (t : Table) (len : Int → Int → Nat) (size : Nat) (mask : Option (List Int)) (k : Nat) :
+    TwigRounds len size mask t (pruneTwigs t len size mask k) :=
+  pruneTwigs_rounds len size mask k t
+
+/-- **Only twigs are removed**: a node of `t` that is missing from `pruneTwigs t … k` was, in the
+round `u → subset u …` in which it was removed, a non-last node of a terminal branch of the
+then-current table `u` with length `≤ size` and leaf in the mask. -/
+theorem pruneTwigs_only_twigs (t : Table) (len : Int → Int → Nat) (size : Nat) (mask : Option (List Int)) (k : Nat)
+    (i : Int) (hi : i ∈ ids t) (hni : i ∉ ids (pruneTwigs t len size mask k)) :
+    ∃ u, TwigRounds len size mask t u ∧ TwigRounds len size mask u (pruneTwigs t len size mask k) ∧
+      i ∈ ids u ∧
+      ∃ s ∈ terminalSegs u, pathLen len s ≤ size ∧
+        (match (generalizing := false) mask, s.head? with
+         | some m, some h => m.contains h = true
+         | some _, none => False
+         | none, _ => True) ∧ i ∈ s.dropLast := by
+  obtain ⟨u, h1, h2, h3, h4⟩ := (pruneTwigs_rounds len size mask k t).removed hi hni
+  exact ⟨u, h1, .step (List.ne_nil_of_mem h3) h4, h2, (twigDelete_spec u len size mask i).mp h3⟩
+
+/-- Nothing is added and the row order is kept. -/
+theorem pruneTwigs_ids_sublist (t : Table) (len : Int → Int → Nat) (size : Nat) (mask : Option (List Int)) (k : Nat) :
+    (ids (pruneTwigs t len size mask k)).Sublist (ids t) :=
+  (pruneTwigs_rounds len size mask k t).ids_sublist
+
+theorem pruneTwigs_WF (t : Table) (hw : WF t) (len : Int → Int → Nat) (size : Nat) (mask : Option (List Int)) (k : Nat) :
+    WF (pruneTwigs t len size mask k) := WF_pruneTwigs hw len size mask k
+
+theorem pruneTwigsOnce_WF (t : Table) (hw : WF t) (len : Int → Int → Nat) (size : Nat) (mask : Option (List Int)) :
+    WF (pruneTwigsOnce t len size mask) := WF_pruneTwigsOnce hw len size mask
+
+/-- Labels stay correct (when nothing is deleted the input is returned unchanged, hence the
+hypothesis on `t`). -/
+theorem pruneTwigs_labels (t : Table) (hl : labelsOKB t = true) (len : Int → Int → Nat) (size : Nat)
+    (mask : Option (List Int)) (k : Nat) : labelsOKB (pruneTwigs t len size mask k) = true :=
+  (pruneTwigs_rounds len size mask k t).labels hl
+
+/-! ### Well-formedness of the other pruning functions -/
+
+theorem pruneAtDepth_WF (t : Table) (hw : WF t) (len : Int → Int → Nat) (src : Int) (depth : Nat) :
+    WF (pruneAtDepth t len src depth) ∧ labelsOKB (pruneAtDepth t len src depth) = true :=
+  ⟨WF_pruneAtDepth hw len src depth, labelsOKB_subset _ _⟩
+
+theorem longestNeurite_WF (t : Table) (hw : WF t) (len : Int → Int → Nat) (lo hi : Nat) (inv : Bool) :
+    WF (longestNeurite t len lo hi inv) := WF_longestNeurite hw len lo hi inv
+
+theorem pruneByStrahler_WF (t : Table) (hw : WF t) (sel : SISel) (t' : Table) (h : pruneByStrahler t sel = some t') :
+    WF t' ∧ labelsOKB t' = true := by
+  refine ⟨WF_pruneByStrahler hw h, ?_⟩
+  obtain ⟨s, _, rfl⟩ := pruneByStrahler_eq_subset h
+  exact labelsOKB_subset _ _
+
+/-- `prune_by_strahler` keeps exactly the nodes whose Strahler index is not in the selected set. -/
+theorem strahler_keep_spec (t : Table) (sel : SISel) (t' : Table) (h : pruneByStrahler t sel = some t') :
+    ∃ s, siSet (((ids t).map (strahler t false [])).foldl max 0) sel = some s ∧
+      ids t' = (ids t).filter fun i => !s.contains (strahler t false [] i) := by
+  obtain ⟨s, hs, rfl⟩ := pruneByStrahler_eq_subset h
+  exact ⟨s, hs, ids_subset t _⟩
+
+/-! ### Strahler index sets: `range`, `list`, `slice` -/
+
+/-- `range(a, b)` selects `a ≤ i < b`. -/
+theorem siSet_range_spec (mx : Nat) (a b : Int) :
+    ∃ s, siSet mx (.range a b) = some s ∧ ∀ i : Nat, i ∈ s ↔ a ≤ (i : Int) ∧ (i : Int) < b :=
+  ⟨_, siSet_range_eq mx a b, fun i => mem_siSet_range (siSet_range_eq mx a b) i⟩
+
+/-- A list selects its (non-negative) members. -/
+theorem siSet_list_spec (mx : Nat) (ks : List Int) :
+    ∃ s, siSet mx (.list ks) = some s ∧ ∀ i : Nat, i ∈ s ↔ (i : Int) ∈ ks :=
+  ⟨_, siSet_list_eq mx ks, fun i => mem_siSet_list (siSet_list_eq mx ks) i⟩
+
+/-- What `sliceBound n v dflt` computes — Python's normalisation of a slice bound on a list of length
+`n`: `None` ↦ the default; `v ≥ 0` ↦ `min n v`; `v < 0` ↦ `max 0 (n + v)` (`n - |v|` in `Nat`). -/
+theorem sliceBound_spec (n d : Nat) :
+    sliceBound n none d = d ∧
+    (∀ i : Int, 0 ≤ i → sliceBound n (some i) d = min n i.toNat) ∧
+    (∀ i : Int, i < 0 → sliceBound n (some i) d = n - (-i).toNat) ∧
+    (∀ v, d ≤ n → sliceBound n v d ≤ n) :=
+  ⟨rfl, fun _ h => sliceBound_nonneg n d h, fun _ h => sliceBound_neg n d h, fun v h => sliceBound_le n v h⟩
+
+/-- `slice(a, b)` on `list(range(1, max+1))` (whose position `p` holds the index `p + 1`): with
+`lo = sliceBound max a 0` and `hi = sliceBound max b max`, the selected indices are the contiguous run
+`lo+1, …, hi` — i.e. index `i` is selected iff its position `i - 1` satisfies `lo ≤ i - 1 < hi`. -/
+theorem siSet_slice_spec (mx : Nat) (a b : Option Int) :
+    ∃ s, siSet mx (.slice a b) = some s ∧
+      s = List.range' (sliceBound mx a 0 + 1) (sliceBound mx b mx - sliceBound mx a 0) ∧
+      sliceBound mx b mx ≤ mx ∧
+      (∀ i : Nat, i ∈ s ↔ sliceBound mx a 0 < i ∧ i ≤ sliceBound mx b mx) ∧
+      (∀ i : Nat, i ∈ s ↔ ∃ p, i = p + 1 ∧ p < mx ∧ sliceBound mx a 0 ≤ p ∧ p < sliceBound mx b mx) := by
+  have hb := sliceBound_le mx b (Nat.le_refl mx)
+  refine ⟨_, siSet_slice_eq mx a b, rfl, hb, fun i => mem_siSet_slice (siSet_slice_eq mx a b) i, ?_⟩
+  intro i
+  rw [mem_siSet_slice (siSet_slice_eq mx a b) i]
+  constructor
+  · rintro ⟨h1, h2⟩; exact ⟨i - 1, by omega, by omega, by omega, by omega⟩
+  · rintro ⟨p, rfl, _, h2, h3⟩; exact ⟨by omega, by omega⟩
+
+/-- Instances: `[:]` selects everything; `[:-k]` (`k > 0`) drops the `k` highest; `[a:]`
+(`a ≥ 0`) drops the `a` lowest. -/
+theorem siSet_slice_all (mx : Nat) (i : Nat) :
+    ∃ s, siSet mx (.slice none none) = some s ∧ (i ∈ s ↔ 1 ≤ i ∧ i ≤ mx) := by
+  refine ⟨_, siSet_slice_eq mx none none, ?_⟩
+  rw [mem_siSet_slice (siSet_slice_eq mx none none) i]
+  simp only [sliceBound_none]; omega
+
+theorem siSet_slice_drop_highest (mx : Nat) (k : Int) (hk : 0 < k) (i : Nat) :
+    ∃ s, siSet mx (.slice none (some (-k))) = some s ∧ (i ∈ s ↔ 1 ≤ i ∧ (i : Int) ≤ mx - k) := by
+  refine ⟨_, siSet_slice_eq mx none _, ?_⟩
+  rw [mem_siSet_slice (siSet_slice_eq mx none _) i, sliceBound_none, sliceBound_neg mx mx (by omega : -k < 0)]
+  omega
+
+theorem siSet_slice_drop_lowest (mx : Nat) (a : Int) (ha : 0 ≤ a) (i : Nat) :
+    ∃ s, siSet mx (.slice (some a) none) = some s ∧ (i ∈ s ↔ a < (i : Int) ∧ i ≤ mx) := by
+  refine ⟨_, siSet_slice_eq mx _ none, ?_⟩
+  rw [mem_siSet_slice (siSet_slice_eq mx _ none) i, sliceBound_none, sliceBound_nonneg mx 0 ha]
+  omega
+
+/-! ### `prune_at_depth`: the source survives; monotone in the depth -/
+
+/-- The source is at distance 0 from itself, so it is always kept. (`WF` is not needed.) -/
+theorem depth_keep_source (t : Table) (len : Int → Int → Nat) (src : Int) (depth : Nat) (hs : src ∈ ids t) :
+    src ∈ ids (pruneAtDepth t len src depth) :=
+  mem_pruneAtDepth.mpr ⟨hs, 0, geo_self t len false src hs, Nat.zero_le _⟩
+
+/-- A larger depth keeps at least as much. -/
+theorem depth_keep_mono (t : Table) (len : Int → Int → Nat) (src : Int) {d₁ d₂ : Nat} (h : d₁ ≤ d₂) (i : Int)
+    (hi : i ∈ ids (pruneAtDepth t len src d₁)) : i ∈ ids (pruneAtDepth t len src d₂) := by
+  obtain ⟨h1, d, h2, h3⟩ := mem_pruneAtDepth.mp hi
+  exact mem_pruneAtDepth.mpr ⟨h1, d, h2, Nat.le_trans h3 h⟩
+
+/-- … and as lists: the smaller keep-set is a sublist of the larger. -/
+theorem depth_keep_mono_sublist (t : Table) (len : Int → Int → Nat) (src : Int) {d₁ d₂ : Nat} (h : d₁ ≤ d₂) :
+    (ids (pruneAtDepth t len src d₁)).Sublist (ids (pruneAtDepth t len src d₂)) := by
+  rw [depth_keep_spec, depth_keep_spec]
+  have : ((ids t).filter fun i => match geo t len false src i with
+      | some d => decide (d ≤ d₁) | none => false) =
+      (((ids t).filter fun i => match geo t len false src i with
+      | some d => decide (d ≤ d₂) | none => false).filter fun i => match geo t len false src i with
+      | some d => decide (d ≤ d₁) | none => false) := by
+    rw [List.filter_filter]
+    apply List.filter_congr
+    intro i _
+    cases geo t len false src i with
+    | none => rfl
+    | some d =>
+      by_cases hd : d ≤ d₁
+      · have : d ≤ d₂ := Nat.le_trans hd h
+        simp [hd, this]
+      · simp [hd]
+  rw [this]
+  exact List.filter_sublist
+
 /-! ### Non-vacuity -/
 def ex : Table := [⟨1, -1, 0, 0, 0, .root⟩, ⟨2, 1, 3, 0, 0, .branch⟩, ⟨3, 2, 6, 0, 0, .end_⟩, ⟨4, 2, 3, 4, 0, .end_⟩]
 example : terminalSegs ex = [[3, 2], [4, 2]] := by decide
@@ -129,5 +322,27 @@ example : twigDelete ex (coordLen ex) 3 none = [3] ∧ twigDelete ex (coordLen e
 example : ids (pruneTwigs ex (coordLen ex) 4 none 5) = [1, 2] := by decide
 example : ids (pruneAtDepth ex (coordLen ex) 1 6 ) = [1, 2, 3] := by decide
 example : (pruneByStrahler ex (.int 1)).map ids = some [1, 2] := by decide
+
+/-- A table on which recursion matters: removing the twigs `3`, `4` turns `2` into a new twig. -/
+def ex2 : Table := [⟨1, -1, 0, 0, 0, .root⟩, ⟨2, 1, 0, 0, 0, .branch⟩, ⟨3, 2, 0, 0, 0, .end_⟩,
+  ⟨4, 2, 0, 0, 0, .end_⟩, ⟨5, 1, 0, 0, 0, .end_⟩]
+def len2 : Int → Int → Nat := fun a _ => if a == 5 then 10 else 1
+example : ids (pruneTwigsOnce ex2 len2 1 none) = [1, 2, 5] ∧ ids (pruneTwigs ex2 len2 1 none 1) = [1, 5] ∧
+    ids (pruneTwigs ex2 len2 1 none 5) = [1, 5] := by decide
+example : twigDelete (pruneTwigsOnce ex2 len2 1 none) len2 1 none = [2] ∧
+    twigDelete (pruneTwigs ex2 len2 1 none 5) len2 1 none = [] := by decide
+example : wfB (pruneTwigs ex2 len2 1 none 5) = true ∧ labelsOKB (pruneTwigs ex2 len2 1 none 5) = true := by decide
+example : ids (pruneTwigs ex2 len2 1 (some [3]) 5) = [1, 2, 4, 5] := by decide
+example : twigDelete (pruneTwigs ex (coordLen ex) 4 none 4) (coordLen ex) 4 none = [] := by decide
+example : wfB (pruneAtDepth ex (coordLen ex) 3 3) = true ∧ wfB (longestNeurite ex (coordLen ex) 0 1 false) = true := by decide
+example : (pruneByStrahler ex (.int 1)).map wfB = some true := by decide
+example : siSet 5 (.slice none none) = some [1, 2, 3, 4, 5] ∧ siSet 5 (.slice none (some (-1))) = some [1, 2, 3, 4] ∧
+    siSet 5 (.slice (some 1) (some 3)) = some [2, 3] ∧ siSet 5 (.slice (some (-2)) none) = some [4, 5] ∧
+    siSet 5 (.slice (some 7) none) = some [] ∧ siSet 5 (.slice (some (-9)) (some 9)) = some [1, 2, 3, 4, 5] ∧
+    siSet 5 (.slice (some 3) (some 1)) = some [] := by decide
+example : siSet 5 (.range 2 4) = some [2, 3] ∧ siSet 5 (.range (-2) 2) = some [0, 1] ∧
+    siSet 5 (.list [1, -1, 3]) = some [1, 3] := by decide
+example : ids (pruneAtDepth ex (coordLen ex) 3 0) = [3] ∧ ids (pruneAtDepth ex (coordLen ex) 3 3) = [2, 3] ∧
+    ids (pruneAtDepth ex (coordLen ex) 3 7) = [1, 2, 3, 4] := by decide
 
 end Navis.Props.C12
